@@ -1516,16 +1516,22 @@ class ProvBundle(object):
         # TODO: Check unification rules in the PROV-CONSTRAINTS document
         # This method simply merges the records having the same name
         merged_records = dict()
-        for identifier, records in self._id_map.items():
-            if len(records) > 1:
-                # more than one record having the same identifier
-                # merge the records
-                merged = records[0].copy()
-                for record in records[1:]:
-                    merged.add_attributes(record.attributes)
-                # map all of them to the merged record
-                for record in records:
-                    merged_records[record] = merged
+        for identifier, all_records in self._id_map.items():
+            if len(all_records) > 1:
+                # more than one record having the same identifier:
+                # merge those of the same kind (an entity and an agent sharing
+                # an identifier remain two records)
+                records_by_type = dict()
+                for record in all_records:
+                    records_by_type.setdefault(record.get_type(), []).append(record)
+                for records in records_by_type.values():
+                    if len(records) > 1:
+                        merged = records[0].copy()
+                        for record in records[1:]:
+                            merged.add_attributes(record.attributes)
+                        # map all of them to the merged record
+                        for record in records:
+                            merged_records[record] = merged
         if not merged_records:
             # No merging done, just return the list of original records
             return list(self._records)
